@@ -8,6 +8,7 @@
   function, or math/rand output flows anywhere but the "grease-%x" stanza type.
 -/
 import AgeModel.Extracted.RandUse
+import Proofs.GoTieMisc
 namespace AgeModel
 namespace Tie.C06
 
@@ -52,6 +53,21 @@ theorem crypto_rand_sites : Extracted.cryptoRandSites = [
 /-- every use of any `rand` package is accounted for by the two lists above -/
 theorem all_uses_accounted :
     Extracted.randUses.length = Extracted.cryptoRandSites.length + Extracted.otherRandUses.length := by decide
+
+
+/-! ## The code itself (DESIGN.md §5.3): the chunk nonce arithmetic of internal/stream,
+    TRANSLATED from the source on every run. The nonce of chunk `i` is the 88-bit
+    big-endian counter `i` followed by the flag byte; `incNonce` steps the counter by one
+    (carrying through all eleven bytes) and leaves the flag alone, so — with
+    `Props.C06.chunk_nonces_distinct` — no two chunks of a payload share a nonce. -/
+
+theorem incNonce_tie (i : Nat) (last : Bool) (h : i + 1 < 2 ^ 88) :
+    Extracted.stream_incNonce (Stream.nonce i last) = .ok (Stream.nonce (i + 1) last) :=
+  GoTie.incNonce_tie i last h
+
+theorem setLastChunkFlag_tie (i : Nat) (last : Bool) :
+    Extracted.stream_setLastChunkFlag (Stream.nonce i last) = .ok (Stream.nonce i true) :=
+  GoTie.setLastChunkFlag_tie i last
 
 end Tie.C06
 end AgeModel
